@@ -130,10 +130,11 @@ type integ struct {
 // routeCfg is a child route of the scenarios (all routes group by [g]); Sel names a matcher of
 // the library mirrored in spec/AMObs.tla (Sel).
 type routeCfg struct {
+	Parent int // 0: child of the root; i: child of Routes[i-1] (routes are listed in configuration order)
 	Sel    string
 	Cont   bool
-	Recv   string
-	GBy    string // "" or "g": [g]; "none": []; "all": ['...']
+	Recv   string // "": inherited
+	GBy    string // "": inherited; "g": [g]; "none": []; "all": ['...']
 	T      timers
 	Mute   []tiv
 	Active []tiv
@@ -143,19 +144,15 @@ var selMatcher = map[string]string{
 	"ALL": `alertname=~".+"`, "G1": `g="1"`, "G2": `g="2"`, "CRIT": `sev="crit"`, "AX": `a="x"`, "NOA": `a=""`,
 }
 
-// rec is the route as the observer specification takes it.
-func (r routeCfg) rec(root bool) map[string]any {
-	rk := "{}"
-	if !root {
-		rk = "{}/{" + selMatcher[r.Sel] + "}"
+// rec is the route as the observer specification takes it (unset options: "" / -1, the
+// specification applies the inheritance); rk is the route's key.
+func (r routeCfg) rec(rk string) map[string]any {
+	t := []int64{int64(r.T.gw / time.Millisecond), int64(r.T.gi / time.Millisecond), int64(r.T.ri / time.Millisecond)}
+	if r.T == (timers{}) {
+		t = []int64{-1, -1, -1}
 	}
-	gby := r.GBy
-	if gby == "" {
-		gby = "g"
-	}
-	return map[string]any{"rk": rk, "sel": r.Sel, "cont": r.Cont, "recv": r.Recv, "gby": gby,
-		"gw": int64(r.T.gw / time.Millisecond), "gi": int64(r.T.gi / time.Millisecond), "ri": int64(r.T.ri / time.Millisecond),
-		"mute": nonNil(r.Mute), "active": nonNil(r.Active)}
+	return map[string]any{"parent": r.Parent, "rk": rk, "sel": r.Sel, "cont": r.Cont, "recv": r.Recv, "gby": r.GBy,
+		"gw": t[0], "gi": t[1], "ri": t[2], "mute": nonNil(r.Mute), "active": nonNil(r.Active)}
 }
 
 // tiv is a named time interval: minutes [From, To) of every day (UTC)
@@ -180,14 +177,17 @@ type scenCfg struct {
 // event is the data of the "cfg" event: the configuration as the observer specification takes it.
 func (c scenCfg) event(windows []inst.Window, wait, maxwait int64) map[string]any {
 	routes := []map[string]any{}
+	keys := []string{"{}"}
 	for _, r := range c.Routes {
-		routes = append(routes, r.rec(false))
+		rk := keys[r.Parent] + "/{" + selMatcher[r.Sel] + "}"
+		keys = append(keys, rk)
+		routes = append(routes, r.rec(rk))
 	}
 	if windows == nil {
 		windows = []inst.Window{}
 	}
 	return map[string]any{
-		"root": routeCfg{Sel: "ALL", Recv: "r1", T: c.T}.rec(true), "routes": routes,
+		"root": routeCfg{Sel: "ALL", Recv: "r1", GBy: "g", T: c.T}.rec("{}"), "routes": routes,
 		"integs": c.allIntegs(c.Integs), "inhibit": c.Inhibit, "rt": int64(resolveTimeout / time.Millisecond),
 		"windows": windows, "wait": wait, "maxwait": maxwait, "agc": c.AGC,
 	}
@@ -201,7 +201,9 @@ func (c scenCfg) allIntegs(r1 []integ) []integ {
 func (c scenCfg) maxT() timers {
 	m := c.T
 	for _, r := range c.Routes {
-		m.gw, m.gi, m.ri = max(m.gw, r.T.gw), max(m.gi, r.T.gi), max(m.ri, r.T.ri)
+		if r.T != (timers{}) {
+			m.gw, m.gi, m.ri = max(m.gw, r.T.gw), max(m.gi, r.T.gi), max(m.ri, r.T.ri)
+		}
 	}
 	return m
 }
@@ -240,9 +242,6 @@ func (c scenCfg) yaml(integs []integ) string {
 		}
 	}
 	fmt.Fprintf(&sb, "route:\n  receiver: r1\n  group_by: [g]\n  group_wait: %s\n  group_interval: %s\n  repeat_interval: %s\n", c.T.gw, c.T.gi, c.T.ri)
-	if len(c.Routes) > 0 {
-		sb.WriteString("  routes:\n")
-	}
 	names := func(ivs []tiv) string {
 		var ns []string
 		for _, iv := range ivs {
@@ -250,25 +249,43 @@ func (c scenCfg) yaml(integs []integ) string {
 		}
 		return strings.Join(ns, ", ")
 	}
-	for _, r := range c.Routes {
-		// the root route may not carry time intervals: child routes do
-		fmt.Fprintf(&sb, "  - matchers: ['%s']\n    receiver: %s\n    continue: %v\n", selMatcher[r.Sel], r.Recv, r.Cont)
-		switch r.GBy {
-		case "none":
-			sb.WriteString("    group_by: []\n")
-		case "all":
-			sb.WriteString("    group_by: ['...']\n")
-		}
-		if r.T != c.T {
-			fmt.Fprintf(&sb, "    group_wait: %s\n    group_interval: %s\n    repeat_interval: %s\n", r.T.gw, r.T.gi, r.T.ri)
-		}
-		if len(r.Mute) > 0 {
-			fmt.Fprintf(&sb, "    mute_time_intervals: [%s]\n", names(r.Mute))
-		}
-		if len(r.Active) > 0 {
-			fmt.Fprintf(&sb, "    active_time_intervals: [%s]\n", names(r.Active))
+	var render func(parent int, ind string)
+	render = func(parent int, ind string) {
+		first := true
+		for i, r := range c.Routes {
+			if r.Parent != parent {
+				continue
+			}
+			if first {
+				sb.WriteString(ind + "routes:\n")
+				first = false
+			}
+			// the root route may not carry time intervals: the other routes do
+			fmt.Fprintf(&sb, "%s- matchers: ['%s']\n%s  continue: %v\n", ind, selMatcher[r.Sel], ind, r.Cont)
+			if r.Recv != "" {
+				fmt.Fprintf(&sb, "%s  receiver: %s\n", ind, r.Recv)
+			}
+			switch r.GBy {
+			case "g":
+				sb.WriteString(ind + "  group_by: [g]\n")
+			case "none":
+				sb.WriteString(ind + "  group_by: []\n")
+			case "all":
+				sb.WriteString(ind + "  group_by: ['...']\n")
+			}
+			if r.T != (timers{}) {
+				fmt.Fprintf(&sb, "%s  group_wait: %s\n%s  group_interval: %s\n%s  repeat_interval: %s\n", ind, r.T.gw, ind, r.T.gi, ind, r.T.ri)
+			}
+			if len(r.Mute) > 0 {
+				fmt.Fprintf(&sb, "%s  mute_time_intervals: [%s]\n", ind, names(r.Mute))
+			}
+			if len(r.Active) > 0 {
+				fmt.Fprintf(&sb, "%s  active_time_intervals: [%s]\n", ind, names(r.Active))
+			}
+			render(i+1, ind+"  ")
 		}
 	}
+	render(0, "  ")
 	if c.Inhibit {
 		sb.WriteString("inhibit_rules:\n- source_matchers: ['sev=\"crit\"']\n  target_matchers: ['sev=\"warn\"']\n  equal: [g]\n")
 	}
@@ -333,22 +350,27 @@ func genScenario(rng *rand.Rand) (scenCfg, []envEvent, []inst.Window, time.Durat
 	flap := rng.Intn(4) == 0 // a resolve / re-fire pair around a flush tick with a slow receiver
 	tOf := func() timers {
 		if flap || rng.Intn(2) == 0 {
-			return cfg.T
+			return timers{} // not set: inherited from the parent route
 		}
 		return timerSets[rng.Intn(len(timerSets))]
 	}
-	routeKind := rng.Intn(14)
+	routeKind := rng.Intn(17)
 	switch routeKind {
 	case 4: // a continuing route to a second receiver in front of a catch-all
-		cfg.Routes = []routeCfg{{Sel: "G1", Cont: true, Recv: "r2", T: tOf()}, {Sel: "ALL", Recv: "r1", T: cfg.T}}
+		cfg.Routes = []routeCfg{{Sel: "G1", Cont: true, Recv: "r2", T: tOf()}, {Sel: "ALL"}}
 	case 5: // first match wins: critical alerts to r2, the rest stays with the root
 		cfg.Routes = []routeCfg{{Sel: "CRIT", Recv: "r2", T: tOf()}}
 	case 6: // overlapping selectors, only the first continues
-		cfg.Routes = []routeCfg{{Sel: "AX", Cont: true, Recv: "r2", T: tOf()}, {Sel: "G1", Recv: "r1", T: tOf()}, {Sel: "ALL", Recv: "r2", T: cfg.T}}
+		cfg.Routes = []routeCfg{{Sel: "AX", Cont: true, Recv: "r2", T: tOf()}, {Sel: "G1", Recv: "r1", T: tOf()}, {Sel: "ALL", Recv: "r2"}}
 	case 7: // a selector on a missing label; two routes to the same receiver
-		cfg.Routes = []routeCfg{{Sel: "NOA", Cont: true, Recv: "r2", T: cfg.T}, {Sel: "G2", Recv: "r2", T: tOf()}}
+		cfg.Routes = []routeCfg{{Sel: "NOA", Cont: true, Recv: "r2"}, {Sel: "G2", Recv: "r2", T: tOf()}}
 	case 8: // everything continues: every alert in several groups
-		cfg.Routes = []routeCfg{{Sel: "G1", Cont: true, Recv: "r1", T: tOf()}, {Sel: "AX", Cont: true, Recv: "r2", T: tOf()}, {Sel: "ALL", Cont: true, Recv: "r2", T: cfg.T}}
+		cfg.Routes = []routeCfg{{Sel: "G1", Cont: true, Recv: "r1", T: tOf()}, {Sel: "AX", Cont: true, Recv: "r2", T: tOf()}, {Sel: "ALL", Cont: true, Recv: "r2"}}
+	case 9: // nested: an intermediate route (muted for a while) whose child has no intervals of its own
+		cfg.Routes = []routeCfg{{Sel: "G1", Recv: "r1", T: tOf()}, {Parent: 1, Sel: "AX", Recv: "r2"}, {Sel: "ALL"}}
+	case 10: // nested under a continuing catch-all with its own receiver and timers; options inherited two levels down
+		cfg.Routes = []routeCfg{{Sel: "ALL", Cont: true, Recv: "r2", T: tOf()}, {Parent: 1, Sel: "CRIT", Recv: "r1", GBy: "none"},
+			{Parent: 1, Sel: "G2"}, {Parent: 3, Sel: "AX", Cont: true}, {Sel: "G1", Recv: "r1"}}
 	}
 	if len(cfg.Routes) > 0 && !flap {
 		// some child routes group differently: one group for everything / one group per alert
@@ -385,7 +407,7 @@ func genScenario(rng *rand.Rand) (scenCfg, []envEvent, []inst.Window, time.Durat
 		return tiv{Name: name, From: from * 60000, To: to * 60000}
 	}
 	// time intervals live on child routes (the root may not carry any)
-	all := routeCfg{Sel: "ALL", Recv: "r1", T: cfg.T}
+	all := routeCfg{Sel: "ALL"}
 	switch routeKind {
 	case 0:
 		all.Mute = []tiv{mkiv("m1")}
@@ -400,8 +422,10 @@ func genScenario(rng *rand.Rand) (scenCfg, []envEvent, []inst.Window, time.Durat
 		all.Mute = []tiv{mkiv("m1")}
 		all.Active = []tiv{mkiv("a1"), {Name: "a2", From: 0, To: 2 * 60000}}
 		cfg.Routes = []routeCfg{all}
-	case 4, 7: // one of several routes is muted for a while
+	case 4, 7, 9: // one of several routes is muted for a while
 		cfg.Routes[0].Mute = []tiv{mkiv("m1")}
+	case 10:
+		cfg.Routes[2].Active = []tiv{{Name: "a1", From: 0, To: (1 + rng.Int63n(max(hmin, 1))) * 60000}}
 	}
 	n := 6 + rng.Intn(14)
 	var evs []envEvent
